@@ -16,7 +16,12 @@ def make_case_for(prop_number, profile=None, prefer=()):
         if tier == "thorough":
             pf.setdefault("steps", (3, 60))
         pf.setdefault("p_targetable", 0.5)
+        idle = prop_number == 1 and index % 16 == 9
+        if idle:
+            pf.update({"n_junctions": (1, 2), "p_residual": 0.0, "p_junction_init": 0.0, "p_timed": 0.0})
         spec = gen.gen_spec(rng, pf)
+        if idle:
+            make_a_junction_idle(spec)
         # about a third of the models run with a generated program set (program-driven rates, numbers and junction
         # proportions, start/stop years on and off the grid, overwrites); drawn from a stream of its own
         rng2 = gen.rng_for(seed, prop_number, 500000 + index)
@@ -24,6 +29,32 @@ def make_case_for(prop_number, profile=None, prefer=()):
         return {"kind": "generated", "spec": spec, "progspec": ps}
 
     return make_case
+
+
+def make_a_junction_idle(spec):
+    """One plain junction of the model receives nobody (its inflow parameters are zero) while all its proportions are zero:
+    it has nothing to distribute, and its outflows must then be exactly zero (not 0/0)."""
+    juncs = [c["name"] for c in spec["comps"] if c["kind"] == "junc"]
+    by_name = {p["name"]: p for p in spec["pars"]}
+    for j in juncs:
+        outs = [x.strip() for a, b, pn in spec["trans"] if a == j and pn != ">" for x in str(pn).split(",")]
+        ins = [x.strip() for a, b, pn in spec["trans"] if b == j and pn != ">" for x in str(pn).split(",")]
+        if any(pn == ">" for a, b, pn in spec["trans"] if a == j) or any(a in juncs for a, b, pn in spec["trans"] if b == j):
+            continue
+        if not outs or any(by_name[x]["function"] is not None or not by_name[x]["db"] for x in outs + ins):
+            continue
+        for x in outs + ins:
+            by_name[x]["min"] = None if by_name[x]["min"] is None else min(0.0, by_name[x]["min"])
+            by_name[x]["targetable"] = False
+            for pop in spec["pops"]:
+                spec["values"].setdefault(x, {})[pop] = {"a": 0.0}
+            spec.get("yfactors", {}).pop(x, None)
+            spec.get("meta_yfactors", {}).pop(x, None)
+        if j in spec["values"]:
+            for pop in spec["pops"]:
+                spec["values"][j][pop] = {"a": 0.0}
+        return True
+    return False
 
 
 def sample_of_case(case):
